@@ -549,7 +549,7 @@ def execute(scn, keep_objects=False, wall_limit=None):
     """Run the scenario under a wall limit; returns the history dict."""
     import signal
     if wall_limit is None:
-        wall_limit = float(os.environ.get('GPSIM_WALL', '20'))
+        wall_limit = float(scn.get('wall') or os.environ.get('GPSIM_WALL', '20'))
 
     def on_alarm(signum, frame):
         raise ScenarioTimeout()
@@ -796,11 +796,11 @@ def _execute(scn, keep_objects=False):
                                   ('time', [])):
                     try:
                         setattr(pt, attr, val)
-                        res[attr] = 'assigned'
+                        res['assign_' + attr] = 'assigned'
                     except AttributeError:
-                        res[attr] = 'AttributeError'
+                        res['assign_' + attr] = 'AttributeError'
                     except Exception as ex:      # noqa
-                        res[attr] = type(ex).__name__
+                        res['assign_' + attr] = type(ex).__name__
                 idx = {id(o): j for j, o in enumerate(ctx.objs)
                        if o is not None}
                 res['chain'] = [idx.get(id(e), 'foreign')
